@@ -30,6 +30,8 @@ def static_events():
 class Check:
     def __init__(self, pid, tier, seed):
         self.pid, self.tier, self.seed = pid, tier, seed
+        if os.environ.get("VERIF_NO_EVIDENCE"):      # development sweeps (other seeds) must not overwrite the committed evidence
+            self.no_evidence = True
         self.out = "%s/out/%s" % (vlib.VERIF, pid)
         # one run per property at a time (a second run would wipe the first one's scratch directory): wait for the lock
         import fcntl
